@@ -58,8 +58,8 @@ var c07QtypeNames = []struct {
 var c07Qtypes = []uint16{1, 28, 5, 15, 16, 65, 255, 2, 0, 65535, 64, 12}
 
 var c07Tlds = []string{"com", "cn", "org", "test"}
-var c07Slds = []string{"example", "google", "x", "a-b", "foo_bar", "1", "ample"}
-var c07Subs = []string{"www", "a", "mail", "xn--0", "b.c"}
+var c07Slds = []string{"example", "google", "x", "a-b", "foo_bar", "1", "ample", "jquery", "zhihu", "vk", "9gag", "d5678"}
+var c07Subs = []string{"www", "a", "mail", "xn--0", "b.c", "hjkquvyz", "49"}
 
 func c07Domain(r *VRand) string {
 	switch r.Intn(10) {
@@ -451,6 +451,28 @@ func c07Names(r *VRand, rules []c07Rule, n int, stats *VStats) []string {
 			default:
 				base = c07Domain(r)
 			}
+		}
+		// bytes outside the domain alphabet that are legal on the wire: | * $ ^ @ (the cache key uses `|`,
+		// the matchers use `^` and `$` as markers, the automaton reads unknown bytes as `a`)
+		if base != "" && r.Chance(0.06) {
+			sp := string("|*$^@"[r.Intn(5)])
+			switch r.Intn(4) {
+			case 0:
+				base = "x" + sp + "y." + base
+			case 1:
+				i := r.Intn(len(base) + 1)
+				base = base[:i] + sp + base[i:]
+			case 2:
+				base = base + sp
+			default:
+				base = sp + base
+			}
+			stats.Inc("name.special-byte")
+		}
+		// names that are IP literals: the controller never caches answers for them
+		if r.Chance(0.02) {
+			base = []string{"1.2.3.4", "10.0.0.1", "::1", "1.2.3.4.5", "0.0.0.0", "fe80::1"}[r.Intn(6)]
+			stats.Inc("name.ip-literal-like")
 		}
 		switch r.Intn(8) {
 		case 0, 1:
